@@ -596,7 +596,16 @@ class HttpStreamSession:
         # Strip state token from user-visible metadata
         user_cm = strip_keys(ab.custom_metadata, STATE_KEY, CALL_STATE_KEY)
 
-        _drain_stream(reader)
+        # Log messages the method emitted *after* its data batch follow that
+        # batch in the response.  Deliver them rather than draining them away:
+        # on the pipe transport the same messages reach ``on_log`` with the
+        # next read.
+        while True:
+            try:
+                trailing, trailing_cm = reader.read_next_batch_with_custom_metadata()
+            except StopIteration:
+                break
+            _dispatch_log_or_error(trailing, trailing_cm, self._on_log)
         return AnnotatedBatch(batch=ab.batch, custom_metadata=user_cm)
 
     def _send_continuation(self, token: bytes) -> ValidatedReader:
